@@ -513,6 +513,20 @@ class Check:
         return 0
 
 
+def growth(chk: "Check", name: str, fn, *args, **kwargs):
+    """Run a growth section (a specification of behaviour outside the listed properties, hosted by a property's
+    check).  Whatever stops it from running -- its model, its driver, the implementation leaving the driver's
+    assumptions -- is a note in the evidence, never a failure of the host check."""
+    try:
+        fn(chk, *args, **kwargs)
+    except KeyboardInterrupt:
+        raise
+    except BaseException as e:  # noqa
+        msg = "growth section %s could not run: %s: %s" % (name, type(e).__name__, str(e)[:300])
+        chk.notes.append(msg)
+        print("GROWTH-NOTE " + msg.replace("\n", " ")[:300])
+
+
 def model_check(chk: "Check", module: str, cfg_text: str, label: str, workers="auto", timeout: int = 3600,
                 heap: str = "8g") -> TlcResult:
     """Exhaustively check a bounded model (module name in /verif/specs, cfg given as text)."""
